@@ -20,6 +20,7 @@ package c06
 import (
 	"crypto/elliptic"
 	"fmt"
+	"math/big"
 	"testing"
 
 	"github.com/markkurossi/mpc/ot"
@@ -386,6 +387,9 @@ type OCase struct {
 	KeyBits int      `json:"keybits,omitempty"`
 	Seed    uint64   `json:"seed"`
 	Batches []OBatch `json:"batches"`
+	// Blind (rsa only): classes of the receiver's blinding value, one per
+	// transfer, cyclic (see rsablind_test.go); empty = uniform randomness.
+	Blind []string `json:"blind,omitempty"`
 }
 
 func genOCase(t *rapid.T) OCase {
@@ -406,6 +410,12 @@ func genOCase(t *rapid.T) OCase {
 		small, large, tenths = 12, 12, 0
 		if cs.KeyBits == 1024 {
 			large, tenths = 300, 2
+		}
+		if rapid.IntRange(0, 2).Draw(t, "blind") > 0 {
+			n := rapid.IntRange(1, 6).Draw(t, "nblind")
+			for i := 0; i < n; i++ {
+				cs.Blind = append(cs.Blind, blindClasses[gen.Uniform(t, len(blindClasses), "blindclass")])
+			}
 		}
 	case "co":
 		maxB = 3
@@ -493,6 +503,33 @@ func runOT(cs OCase) ev.Outcome {
 		orig[i] = append([]ot.Wire(nil), wires[i]...)
 	}
 
+	var rio ot.IO = rp
+	var blind *blindReader
+	if cs.Kind == "rsa" && len(cs.Blind) > 0 {
+		for _, c := range cs.Blind {
+			ok := false
+			for _, k := range blindClasses {
+				ok = ok || k == c
+			}
+			if !ok {
+				return ev.Outcome{Skip: "unknown blinding class"}
+			}
+		}
+		var ms []*big.Int
+		for i := range wires {
+			for j, w := range wires[i] {
+				l := w.L0
+				if flags[i][j] {
+					l = w.L1
+				}
+				ms = append(ms, encryptionBlock((cs.KeyBits+7)/8, l))
+			}
+		}
+		blind = newBlindReader(cs.Seed, 21, cs.Blind, ms)
+		receiver = ot.NewRSA(blind, cs.KeyBits)
+		rio = &sniffIO{IO: rp, b: blind}
+	}
+
 	serr, rerr, hung := runPair(sp, rp, func() error {
 		if err := sender.InitSender(sp); err != nil {
 			return fmt.Errorf("InitSender: %w", err)
@@ -509,7 +546,7 @@ func runOT(cs OCase) ev.Outcome {
 		}
 		return nil
 	}, func() error {
-		if err := receiver.InitReceiver(rp); err != nil {
+		if err := receiver.InitReceiver(rio); err != nil {
 			return fmt.Errorf("InitReceiver: %w", err)
 		}
 		for i, b := range cs.Batches {
@@ -577,6 +614,15 @@ func runOT(cs OCase) ev.Outcome {
 	}
 	if cs.Kind == "rsa" {
 		cl.add(fmt.Sprintf("rsa:keybits=%d", cs.KeyBits))
+	}
+	if blind != nil {
+		blind.mu.Lock()
+		for k, n := range blind.used {
+			if n > 0 {
+				cl.add("rsa:blinding=" + k)
+			}
+		}
+		blind.mu.Unlock()
 	}
 	nt := nb > 1
 	if cs.Kind == "co" || cs.Kind == "rsa" {
